@@ -18,19 +18,24 @@ Definition octx_eqb (a b : octx) : bool :=
 
 Definition event_eqb (a b : event) : bool := nl_eqb (fst a) (fst b) && (snd a =? snd b)%N.
 
-Definition ostep_of (r : step_res) : ostep :=
-  {| os_events := r_ev r; os_ctxs := map octx_of (sort_by c_name (r_st r)) |}.
+(* legacy subsystem: @service registers at definition time; new subsystem: when the context is started.
+   the ping reaches the trigger functions of started contexts *)
+Definition ostep_of (legacy : bool) (r : step_res) : ostep :=
+  {| os_events := r_ev r; os_ctxs := map octx_of (sort_by c_name (r_st r));
+     os_srv := sort_N (map c_gen (filter (fun c => legacy || c_started c) (r_st r)));
+     os_pong := sort_N (map c_gen (filter c_started (r_st r))) |}.
 
 Definition ostep_eqb (a b : ostep) : bool :=
   list_eqb event_eqb (os_events a) (os_events b)
-  && list_eqb octx_eqb (sort_by o_name (os_ctxs a)) (sort_by o_name (os_ctxs b)).
+  && list_eqb octx_eqb (sort_by o_name (os_ctxs a)) (sort_by o_name (os_ctxs b))
+  && list_eqb N.eqb (os_srv a) (os_srv b) && list_eqb N.eqb (os_pong a) (os_pong b).
 
-Definition model_obs (dv : deviations) (c : rcase) : list ostep := map ostep_of (run dv (rc_steps c)).
+Definition model_obs (dv : deviations) (c : rcase) : list ostep := map (ostep_of (rc_legacy c)) (run dv (rc_steps c)).
 
 (* the conformant Model's own run of the same history satisfies the Spec: ties the Model/Spec pair (the theorems are
    about the Model-level sets of Life/ReloadPlanSpec.v, the Spec evaluated on observations is Life/ReloadSpec.v) *)
 Definition rcase_conformant_ok (c : rcase) : bool :=
-  rcase_spec_ok {| rc_steps := rc_steps c; rc_obs := model_obs all_off c |}.
+  rcase_spec_ok {| rc_legacy := rc_legacy c; rc_steps := rc_steps c; rc_obs := model_obs all_off c |}.
 
 Definition rcase_model_ok (dv : deviations) (c : rcase) : bool :=
   forallb r_fuel (run dv (rc_steps c)) && list_eqb ostep_eqb (model_obs dv c) (rc_obs c) && rcase_conformant_ok c.
@@ -59,4 +64,4 @@ Fixpoint first_diff (i : N) (a b : list ostep) : option (N * option ostep * opti
 Definition rcase_explain (dv : deviations) (c : rcase) :=
   (first_diff 0%N (model_obs dv c) (rc_obs c), spec_failures c,
    (* Spec clauses violated by the conformant Model's own run of this history (should be none) *)
-   spec_failures {| rc_steps := rc_steps c; rc_obs := model_obs all_off c |}).
+   spec_failures {| rc_legacy := rc_legacy c; rc_steps := rc_steps c; rc_obs := model_obs all_off c |}).
